@@ -129,10 +129,25 @@ fn dump(db: &GrafeoDB) -> String {
         })
         .collect();
     es.sort();
+    // adjacency as the traversal paths see it (what an incoming / outgoing pattern walks over)
+    let store = db.store();
+    let adj: Vec<String> = ns
+        .iter()
+        .map(|(id, _)| {
+            let nid = grafeo_common::types::NodeId::new(*id);
+            let mut o: Vec<(u64, u64)> = store.edges_from(nid, grafeo_core::graph::Direction::Outgoing).map(|(n, e)| (e.as_u64(), n.as_u64())).collect();
+            let mut i: Vec<(u64, u64)> = store.edges_from(nid, grafeo_core::graph::Direction::Incoming).map(|(n, e)| (e.as_u64(), n.as_u64())).collect();
+            o.sort_unstable();
+            i.sort_unstable();
+            let f = |v: &Vec<(u64, u64)>| v.iter().map(|(e, n)| format!("{}.{}", e, n)).collect::<Vec<_>>().join(",");
+            format!("{}>{}<{}", id, f(&o), f(&i))
+        })
+        .collect();
     format!(
-        "{}|{}",
+        "{}|{}|{}",
         ns.iter().map(|x| x.1.clone()).collect::<Vec<_>>().join(";"),
-        es.iter().map(|x| x.1.clone()).collect::<Vec<_>>().join(";")
+        es.iter().map(|x| x.1.clone()).collect::<Vec<_>>().join(";"),
+        adj.join(";")
     )
 }
 
